@@ -219,8 +219,8 @@ def legacy_history(rng: random.Random, counts: dict, runtime_only: bool) -> None
     if rng.random() < 0.6:
         # class-level introspection of every class of the model (a schema generator run at import time)
         for c in U.cls.values():
-            _quiet(c.get_property_fields)
-            _quiet(c.get_child_fields)
+            _quiet(lambda: list(c.get_property_fields()))
+            _quiet(lambda: list(c.get_child_fields()))
         counts["legacy-class-introspection"] = 1
     steps = ["traverse", "xpath", "serialize", "visit", "replace", "detach-attach", "duplicate", "rich"]
     rng.shuffle(steps)
